@@ -15,6 +15,9 @@ pub trait HLabel: LabelType + Ord + 'static {
     fn from_json(v: &Value) -> Option<Self>;
     /// The k-th label of the canonical universe.
     fn nth(k: usize) -> Self;
+    /// The k-th label of an *unusual* universe (legal for the store, which accepts any label: empty and
+    /// blank strings, strings that look like syntax, very long ones, non-ASCII; 0 and huge numbers).
+    fn odd(k: usize) -> Self;
     /// A framework with arguments nth(0..m) and the given attacks, obtained by *reading a text*
     /// with the reader for this label type (ICCMA'23 for usize, Aspartix for String).
     fn via_reader(m: usize, atts: &[(Self, Self)]) -> Result<crustabri::aa::AAFramework<Self>, String>;
@@ -30,6 +33,10 @@ impl HLabel for usize {
     }
     fn nth(k: usize) -> Self {
         k + 1
+    }
+    fn odd(k: usize) -> Self {
+        const ODD: [usize; 8] = [0, usize::MAX, usize::MAX - 1, u32::MAX as usize, u32::MAX as usize + 1, 10_000_000_000, 1 << 63, 9_999_999_999];
+        if k < ODD.len() { ODD[k] } else { usize::MAX - 7 * k }
     }
     fn via_reader(m: usize, atts: &[(Self, Self)]) -> Result<crustabri::aa::AAFramework<Self>, String> {
         use crustabri::io::InstanceReader;
@@ -51,6 +58,20 @@ impl HLabel for String {
     }
     fn nth(k: usize) -> Self {
         format!("a{}", k)
+    }
+    fn odd(k: usize) -> Self {
+        match k {
+            0 => String::new(),
+            1 => " ".to_string(),
+            2 => "\t".to_string(),
+            3 => "a b".to_string(),
+            4 => "arg(a).".to_string(),
+            5 => "x".repeat(300),
+            6 => "\u{e9}t\u{e9}".to_string(),
+            7 => "a\nb".to_string(),
+            8 => "0".to_string(),
+            _ => format!(" {} ", k),
+        }
     }
     fn via_reader(m: usize, atts: &[(Self, Self)]) -> Result<crustabri::aa::AAFramework<Self>, String> {
         use crustabri::io::InstanceReader;
